@@ -34,7 +34,7 @@ EXTENDS Resolve
 CONSTANTS PrefixSep,      \* TRUE: startswith(namespace + '::') (repaired), FALSE: startswith(namespace) (1.4.0: D3)
           ClassRefExact   \* TRUE: a by-class reference that only finds a grouped namesake is 'not found' (repaired: D21)
 
-ClassOrder == <<"a", "b", "c", "d", "trainx", "ge", "f", "pat", "cy1", "cy2", "z", "w", "bsub", "both", "both2", "gb", "mi", "selfpat">>
+ClassOrder == <<"a", "b", "c", "d", "trainx", "ge", "f", "pat", "cy1", "cy2", "z", "w", "bsub", "both", "both2", "gb", "mi", "selfpat", "ol">>
 Sep == <<":", ":">>
 
 (*************************** _process_config *******************************)
